@@ -280,6 +280,12 @@ func (e *Exec) startCut(st *State, fr *Frame, h, prev *ssa.BasicBlock) {
 	deltas := map[int]*Term{}
 	nonConstDelta := map[int]bool{}
 	measures := e.synthMeasures(fr, h, phis, body)
+	wantFill := !e.SafetyOnly
+	for _, u := range user {
+		if u.Kind == "invariant" {
+			wantFill = false
+		}
+	}
 	preNames := map[string]bool{}
 	for n := range e.C.Decls {
 		preNames[n] = true
@@ -352,7 +358,11 @@ func (e *Exec) startCut(st *State, fr *Frame, h, prev *ssa.BasicBlock) {
 				deltas[k] = d
 			}
 			// proposed now, assumed at the loop head from the next round on (this pass did not assume them)
-			newFill = append(newFill, e.fillCandidates(st, bs, phis, entry, head, headRoots, writes, deltas, nonConstDelta, preNames, cellCand)...)
+			// (only for loops without a usable hand-written invariant, and not in safety-only sweeps: the quantified
+			// step checks are the expensive ones, and an undecided one costs its whole time budget)
+			if wantFill {
+				newFill = append(newFill, e.fillCandidates(st, bs, phis, entry, head, headRoots, writes, deltas, nonConstDelta, preNames, cellCand)...)
+			}
 			arr := &arrival{st: bs}
 			for _, cd := range cands {
 				if !cd.alive {
